@@ -1276,3 +1276,31 @@ package plenccodec
 //@   loop 1 step[C05,C02] called_MapCodec_sizeForEntry ==> call_MapCodec_sizeForEntry_arg1 == call_mapiterkey_r0 && call_MapCodec_sizeForEntry_arg2 == call_mapiterelem_r0 && call_AppendVarUint_arg1 == uint64(call_MapCodec_sizeForEntry_r0) && len(data) == athead(len(data)) + vlen(uint64(call_MapCodec_sizeForEntry_r0)) + call_MapCodec_sizeForEntry_r0
 //@   ensures[C02] at(result, len(data), venc(uint64(old(@plenccodec.maplen(ptr)))), 10)          # the body starts with the number of entries
 //@   ensures[C06,C11] len(result) >= len(data) && (forall j int :: 0 <= j && j < len(data) ==> result[j] == old(data[j]))
+
+//@ func plenccodec.*MapCodec.Size
+//@   safety C05
+//@   assigns nothing
+//@   ensures[C05] called_MapCodec_size && call_MapCodec_size_arg1 == ptr && result == call_MapCodec_size_r0 + len(tag)      # the body size plus the tag: a map field is not length-prefixed (wire type 3 carries a count)
+
+//@ func plenccodec.*MapCodec.Append
+//@   safety C05 C11
+//@   assigns nothing
+//@   ensures[C02] len(tag) <= 16 ==> at(result, len(data), bytes(tag), 16) && at(result, len(data) + len(tag), venc(uint64(old(@plenccodec.maplen(ptr)))), 10)     # the tag, then the number of entries
+//@   ensures[C06,C11] len(result) >= len(data) && (forall j int :: 0 <= j && j < len(data) ==> result[j] == old(data[j]))
+
+//@ # the protobuf form of a map: one length-delimited field per entry, each with the map field's tag (C12)
+//@ func plenccodec.ProtoMapCodec.Size
+//@   safety C05 C12
+//@   assigns nothing
+//@   loop 1 invariant[C05] size >= 0 && size < (1 << 50)
+//@   loop 1 assume size < (1 << 49) && len(tag) < (1 << 20)          # the total encoded size fits well inside an int
+//@   loop 1 step[C05,C12] called_MapCodec_sizeForEntry ==> call_MapCodec_sizeForEntry_arg1 == call_mapiterkey_r0 && call_MapCodec_sizeForEntry_arg2 == call_mapiterelem_r0 && size == head_size + len(tag) + vlen(uint64(call_MapCodec_sizeForEntry_r0)) + call_MapCodec_sizeForEntry_r0
+
+//@ func plenccodec.ProtoMapCodec.Append
+//@   safety C05 C11 C12
+//@   assigns nothing
+//@   loop 1 invariant[C06,C11] len(data) >= len(data0) && (forall j int :: 0 <= j && j < len(data0) ==> data[j] == data0[j])
+//@   # every entry: the map field's tag, the entry's length as announced by sizeForEntry, then exactly that many bytes
+//@   loop 1 step[C05,C12,C02] called_MapCodec_sizeForEntry ==> call_MapCodec_sizeForEntry_arg1 == call_mapiterkey_r0 && call_MapCodec_sizeForEntry_arg2 == call_mapiterelem_r0 && call_AppendVarUint_arg1 == uint64(call_MapCodec_sizeForEntry_r0) && len(data) == athead(len(data)) + len(tag) + vlen(uint64(call_MapCodec_sizeForEntry_r0)) + call_MapCodec_sizeForEntry_r0
+//@   loop 1 step[C12,C02] called_MapCodec_sizeForEntry && len(tag) <= 16 ==> at(data, athead(len(data)), bytes(tag), 16)
+//@   ensures[C06,C11] len(result) >= len(data) && (forall j int :: 0 <= j && j < len(data) ==> result[j] == old(data[j]))
